@@ -69,7 +69,7 @@ pub fn build(vs: Vec<VEntry>, fs: Vec<FEntry>, cs: Vec<CEntry>, overrides: bool,
     src.push_str(F_TYPES);
     src.push_str("const WG_N: u32 = 7u;\n");
     if overrides {
-        src.push_str("override ov_scale: f32 = 1.0;\n@id(9) override ov_flag: bool;\n");
+        src.push_str("override ov_scale: f32 = 1.0;\n@id(9) override ov_flag: bool;\noverride ov_count: u32 = 4u;\n@id(2) override ov_bias: i32;\n");
     }
     for v in &vs {
         let ps: Vec<String> = v.params.iter().enumerate().map(|(i, p)| match p {
@@ -337,7 +337,7 @@ pub fn check_model(p: &Prog, text: &str) -> Vec<String> {
 pub fn probe_code(p: &Prog) -> String {
     let mut s = String::from("    use generated::*;\n    let module = create_shader_module(device);\n");
     if p.overrides {
-        s.push_str("    let ov = OverrideConstants { ov_scale: Some(2.5), ov_flag: true };\n");
+        s.push_str("    let ov = OverrideConstants { ov_scale: Some(2.5), ov_flag: true, ov_count: None, ov_bias: -3 };\n");
     }
     let ov = if p.overrides { ", &ov" } else { "" };
     let ov_only = if p.overrides { "&ov" } else { "" };
@@ -371,7 +371,7 @@ pub fn probe_code(p: &Prog) -> String {
 
 pub fn check_exec(p: &Prog, records: &[serde_json::Value]) -> Vec<String> {
     let mut out = vec![];
-    let consts_want = if p.overrides { "9=1.0,ov_scale=2.5" } else { "" };
+    let consts_want = if p.overrides { "2=-3.0,9=1.0,ov_scale=2.5" } else { "" };
     for v in &p.vs {
         match records.iter().find(|r| r["op"] == "vertex" && r["fn"] == v.name.as_str()) {
             None => out.push(format!("no record for vertex entry {}", v.name)),
@@ -463,7 +463,21 @@ pub fn check_exec(p: &Prog, records: &[serde_json::Value]) -> Vec<String> {
 pub fn run(tier: &str) -> i32 {
     let mut rep = Report::new("C14", tier);
     let thorough = rep.thorough();
-    let progs = space(thorough);
+    let mut progs = space(thorough);
+    // module-scope declaration order is not significant: reversed / functions-first variants (every 4th in quick)
+    let n0 = progs.len();
+    for i in 0..n0 {
+        if thorough || hash64(&progs[i].key) % 4 == 1 {
+            for how in ["reverse", "rotate"] {
+                if let Some(src) = reorder_decls(&progs[i].src, how) {
+                    let mut q = progs[i].clone();
+                    q.key = format!("{}|decl-order={how}", q.key);
+                    q.src = src;
+                    progs.push(q);
+                }
+            }
+        }
+    }
     let cfg = Config::default();
     let res = par_map(&progs, |p| {
         if let Err(e) = naga_check(&p.src) {
@@ -509,8 +523,9 @@ pub fn run(tier: &str) -> i32 {
         let detail = |obs: String| json!({"wgsl": p.src, "config": cfg.key(), "observed": obs, "probe": probe_code(p)});
         match &cr.check {
             Verdict::Accepted => {}
-            Verdict::Rejected(_) => {
-                rep.filtered("compiled subset: module rejected by rustc (C01's domain)");
+            Verdict::Rejected(e) => {
+                // entry constants, helpers and pipeline constructors are all these modules contain
+                rep.violation(p.key.clone(), format!("exec: entry constants / helpers / pipeline constructors do not compile: {} {}", e[0].0, e[0].1.chars().take(90).collect::<String>()), json!({"wgsl": p.src, "config": cfg.key(), "observed": format!("{e:?}")}));
                 continue;
             }
             Verdict::ProbeMismatch(e) => {
